@@ -103,8 +103,9 @@ func expandNamedUUID(column *ColumnSchema, value interface{}, namedUUIDs map[str
 		valType = column.TypeObj.Value.Type
 	}
 
-	if valType == TypeUUID {
-		if m, ok := value.(OvsMap); ok {
+	if m, ok := value.(OvsMap); ok {
+		// either the keys, the values or both may be UUIDs
+		if column.Type == TypeMap {
 			for k, v := range m.GoMap {
 				if newUUID, ok := expandNamedUUIDAtomic(keyType, k, namedUUIDs); ok {
 					m.GoMap[newUUID] = m.GoMap[k]
